@@ -239,7 +239,16 @@ func newMiniRig(c Case) (*rig, *failure) {
 	capA, capB := r.aN.ReadCap.Load(), r.bN.ReadCap.Load()
 	r.aN.ReadCap.Store(0)
 	r.bN.ReadCap.Store(0)
-	srv, err := miniserver.New(miniserver.Options{RoutingTTL: 30 * time.Second, NoSecurityGate: true})
+	opts := miniserver.Options{RoutingTTL: 30 * time.Second, NoSecurityGate: true}
+	if c.HeartbeatMs > 0 {
+		// a tunnel connection carries raw bytes and never sends a heartbeat: the stale-connection
+		// sweeper must not know it any more once it switched to stream mode
+		sc := session.DefaultSessionConfig()
+		sc.HeartbeatTimeout = time.Duration(c.HeartbeatMs) * time.Millisecond
+		sc.CleanupInterval = sc.HeartbeatTimeout / 4
+		opts.Session = sc
+	}
+	srv, err := miniserver.New(opts)
 	if err != nil {
 		return nil, harnessFail("miniserver.New", err)
 	}
@@ -257,17 +266,21 @@ func newMiniRig(c Case) (*rig, *failure) {
 	if err != nil {
 		return fail("connect control A", err)
 	}
-	ctlB, err := srv.Connect("10.2.0.1:30002")
-	if err != nil {
-		return fail("connect control B", err)
-	}
 	ra, err := ctlA.HandshakeNew("control")
 	if err != nil || ra == nil || !ra.Success {
 		return fail("handshake control A", fmt.Errorf("%v %+v", err, ra))
 	}
-	rb, err := ctlB.HandshakeNew("control")
-	if err != nil || rb == nil || !rb.Success {
-		return fail("handshake control B", fmt.Errorf("%v %+v", err, rb))
+	// the target client: a second client, or (loopback mapping) the same client again
+	ctlB := ctlA
+	if !c.SameClient {
+		ctlB, err = srv.Connect("10.2.0.1:30002")
+		if err != nil {
+			return fail("connect control B", err)
+		}
+		rb, err := ctlB.HandshakeNew("control")
+		if err != nil || rb == nil || !rb.Success {
+			return fail("handshake control B", fmt.Errorf("%v %+v", err, rb))
+		}
 	}
 	// The control connections are only needed to register the two clients. They are closed before
 	// the mapping exists: handleHandshake starts pushConfigToClient in a goroutine which writes to
@@ -275,7 +288,9 @@ func newMiniRig(c Case) (*rig, *failure) {
 	// flight crashes the server in StreamProcessor.WritePacket (nil writer) — a defect outside C02
 	// that this rig must not trip over.
 	ctlA.CloseByPeer()
-	ctlB.CloseByPeer()
+	if ctlB != ctlA {
+		ctlB.CloseByPeer()
+	}
 	const secret = "sk-c02-mapping-secret"
 	m, err := srv.Cloud.CreatePortMapping(&models.PortMapping{
 		ListenClientID: ctlA.ClientID, TargetClientID: ctlB.ClientID,
@@ -295,12 +310,6 @@ func newMiniRig(c Case) (*rig, *failure) {
 	if err != nil {
 		return fail("connect tunnel B", err)
 	}
-	if resp, err := tunA.Login(ctlA.ClientID, ctlA.Secret, "tunnel"); err != nil || resp == nil || !resp.Success {
-		return fail("login tunnel A", fmt.Errorf("%v %+v", err, resp))
-	}
-	if resp, err := tunB.Login(ctlB.ClientID, ctlB.Secret, "tunnel"); err != nil || resp == nil || !resp.Success {
-		return fail("login tunnel B", fmt.Errorf("%v %+v", err, resp))
-	}
 	req := &packet.TunnelOpenRequest{MappingID: m.ID, TunnelID: tunnelID, SecretKey: secret}
 	var br *session.TunnelBridge
 	known := func() bool {
@@ -315,6 +324,10 @@ func newMiniRig(c Case) (*rig, *failure) {
 		return false
 	}
 	r.start = func() *failure {
+		// as a client does: tunnel-type handshake and TunnelOpen back to back on a fresh connection
+		if resp, err := tunA.Login(ctlA.ClientID, ctlA.Secret, "tunnel"); err != nil || resp == nil || !resp.Success {
+			return harnessFail("login tunnel A", fmt.Errorf("%v %+v", err, resp))
+		}
 		if err := tunnelOpen(tunA, req); err != nil {
 			return harnessFail("source TunnelOpen", err)
 		}
@@ -328,6 +341,9 @@ func newMiniRig(c Case) (*rig, *failure) {
 		return nil
 	}
 	r.attach = func() *failure {
+		if resp, err := tunB.Login(ctlB.ClientID, ctlB.Secret, "tunnel"); err != nil || resp == nil || !resp.Success {
+			return harnessFail("login tunnel B", fmt.Errorf("%v %+v", err, resp))
+		}
 		b, _ := json.Marshal(req)
 		tunB.Push(&packet.TransferPacket{PacketType: packet.TunnelOpen, Payload: b})
 		if f := awaitTargetAck(r.bN, tunnelID); f != nil {
